@@ -133,6 +133,44 @@ var subC14Count = harness.NewSub("c14-ssrc-count-octet", func(c c14Count, d harn
 	return nil
 })
 
+// c14WireCount is a REMB frame whose count octet and number of SSRC entries are chosen
+// independently.
+type c14WireCount struct {
+	Octet   int
+	Entries int
+}
+
+// the decode side of "the SSRC count octet equals the number of SSRC entries": a frame is
+// accepted exactly when the two agree, and then yields that many SSRCs.
+var subC14WireCount = harness.NewSub("c14-wire-count-octet-vs-entries", func(c c14WireCount, d harness.Dialect) error {
+	b := rembFrame(3, 1000, c.Entries)
+	b[16] = byte(c.Octet)
+	for i := 0; i < c.Entries; i++ {
+		b[20+4*i+3] = byte(i)
+		b[20+4*i+2] = byte(i >> 8)
+	}
+	var p rtcp.ReceiverEstimatedMaximumBitrate
+	err := p.Unmarshal(exactCopy(b))
+	if c.Octet != c.Entries {
+		if err == nil {
+			return fmt.Errorf("REMB frame with count octet %d and %d SSRC entries (%d octets) accepted, decoded %d SSRCs", c.Octet, c.Entries, len(b), len(p.SSRCs))
+		}
+		return nil
+	}
+	if err != nil {
+		return fmt.Errorf("REMB frame with count octet %d and %d SSRC entries rejected: %v", c.Octet, c.Entries, err)
+	}
+	if len(p.SSRCs) != c.Entries {
+		return fmt.Errorf("REMB frame with %d SSRC entries decoded to %d SSRCs", c.Entries, len(p.SSRCs))
+	}
+	for i, s := range p.SSRCs {
+		if s != uint32(i) {
+			return fmt.Errorf("REMB frame with %d SSRC entries: entry %d decoded as %#x", c.Entries, i, s)
+		}
+	}
+	return nil
+})
+
 func TestC14(t *testing.T) {
 	defer harness.Uncaught(t)
 	// (1) decode: all 64 x 2^18 pairs, sharded by exponent
@@ -235,4 +273,24 @@ func TestC14(t *testing.T) {
 		harness.Exhaustive(subC14Count.Name, "SSRC list lengths 0..260, 511, 512")
 		harness.Sample(subC14Count.Name, 4, c14Count{N: 255})
 	}
+	// (5) wire side of the count octet: every octet value against entry counts around it,
+	// around the multiples of 256 it is congruent to, and at the small and large ends
+	lo5, hi5 := harness.ShardRange(256)
+	var n5 int64
+	for octet := int(lo5); octet < int(hi5); octet++ {
+		seen := map[int]bool{}
+		for _, e := range []int{0, 1, 2, octet - 1, octet, octet + 1, octet + 255, octet + 256, octet + 257,
+			octet + 512, octet + 768, 254, 255, 256, 257, 511, 512, 16378 - 255 + octet, 16378} {
+			if e < 0 || seen[e] {
+				continue
+			}
+			seen[e] = true
+			subC14WireCount.Check(t, c14WireCount{Octet: octet, Entries: e})
+			n5++
+		}
+	}
+	harness.Eval(subC14WireCount.Name, n5)
+	harness.NonTrivialDistinct(n5)
+	harness.Exhaustive(subC14WireCount.Name, "count octets 0..255 x entry counts {0,1,2,o-1,o,o+1,o+255..o+257,o+512,o+768,254..257,511,512,16123+o,16378}")
+	harness.Sample(subC14WireCount.Name, 4, c14WireCount{Octet: 44, Entries: 300})
 }
